@@ -5,7 +5,7 @@
 import os, sys
 sys.path.insert(0, os.path.join(os.environ.get("AIOFTP_REPO", "/repo"), "src"))
 OBLIGATION = 'aioftp.server:Server.rnfr#SEQ::PathConditions.__call__.<locals>.wrapper/call:Server.get_paths/pre:user-and-cwd-set'
-MODEL = {'cwd!34': 'Empty(Seq(String))', 'u_cur_home!33': 'Empty(Seq(String))', 'logged_done!14': False, 'block_size!0': 1, 'current_directory_done!16': True, 'restart_offset!10': 0, 'current_directory_present!15': True, 'user_done!12': False, 'logged_present!13': True}
+MODEL = {'cwd!104': 'Empty(Seq(String))', 'block_size!0': 1, 'current_directory_done!16': True, 'u_cur_home!103': 'Empty(Seq(String))', 'current_directory_present!15': True, 'logged_done!14': False, 'restart_offset!10': 0, 'user_present!11': False, 'logged_present!13': True}
 SOLVER_NOTE = ''
 
 print("obligation", OBLIGATION, "failed; no concrete failing input could be constructed automatically")
